@@ -173,7 +173,7 @@ WStart(e) ==
          LET c == cap
              window == SubSeq(log, Retained(wp, c) + 1, wp)
              must == IF kd = "one" THEN LastN(OnlyId(window, e.id), e.n) ELSE LastN(window, e.n)
-             got  == IF e.pos < 0 \/ e.pos > wp THEN <<"bad position">>
+             got  == IF e.pos < 0 \/ e.pos > wp THEN <<Ev("bad-start-position", "", 0, 0, e.pos)>>
                      ELSE IF kd = "one" THEN OnlyId(SubSeq(log, e.pos + 1, wp), e.id) ELSE SubSeq(log, e.pos + 1, wp)
          IN IF got # must THEN Reject("tail-contents", must, [pos |-> e.pos, got |-> got])
             ELSE /\ ws' = Put(ws, e.w, Watcher(kd, e.id, e.pos, noop(e.pos - 1)))
